@@ -23,6 +23,7 @@ Requests -> replies (`{"e":name}` stands for a raised exception everywhere):
   {"op":"hist_to_graph","h":hist,"mv":null|"double"|"pair"|"triple","mode":str,"fields":names,"scale":null|true|q}
       -> {"g":gstate,"rows":[[q..]..],"hscale":q|null}
   {"op":"graph","g":graph,"other":q|null}      -> {"g":gstate,"rows":..,"scaled":gstate|{"e":..}|null}
+  {"op":"graph_add","a":graph,"b":graph}       -> {"g":gstate,"rows":..}
   {"op":"csv","h":hist,"to_csv":bool,"ctx_dup":bool|null,"dup":bool}     -> {"unchanged":true} | {"rows":..,"ctx":[dim,nbins,nout,ranges]}
   {"op":"csv_graph","g":graph,"to_csv":bool}                             -> {"unchanged":true} | {"rows":..}
   {"op":"scale_to","target":q|"hist"|"graph","group":[{"hist":hist}|{"graph":graph}|"other",..],"az":bool,"au":bool}
@@ -255,6 +256,15 @@ def handle (j : Json) : Json :=
           | .error er => excObj er
       Json.mkObj [("g", gstateJson g), ("rows", rowsJson g.rows), ("scaled", scaled)]
     | _, _ => err "bad graph args"
+  | some "graph_add" =>
+    match parseGraph (getD j "a"), parseGraph (getD j "b") with
+    | some (.ok a), some (.ok b) =>
+      match graphAdd a b with
+      | .ok g => Json.mkObj [("g", gstateJson g), ("rows", rowsJson g.rows)]
+      | .error er => excObj er
+    | some (.error er), _ => excObj er
+    | _, some (.error er) => excObj er
+    | _, _ => err "bad graph_add args"
   | some "csv" =>
     match parseHist (getD j "h"), bool? (getD j "to_csv"),
           (if (getD j "ctx_dup").isNull then some none else (bool? (getD j "ctx_dup")).map some), bool? (getD j "dup") with
